@@ -268,7 +268,8 @@ def run_random(case):
             n = meta["n"]
             rowchunk = int(rng.choice([1, 2, n, n + 1])) if rng.random() < 0.7 else None
             workers = int(rng.choice([1, 2, 4, 8]))
-            _one(res, rng, d, df, exp, meta, fmt, colchunk, rowchunk, workers, str(rep))
+            # every second table overwrites the previous file at the same path (same process, new content)
+            _one(res, rng, d, df, exp, meta, fmt, colchunk, rowchunk, workers, "same" if rep % 2 else str(rep))
             evals += 1
             if meta["nfeat"] >= 2 and (meta["nan_cols"] or meta["optional"] or meta["style"] != "default"):
                 sigs.add((meta["nfeat"], meta["n_ident"], colchunk, tuple(meta["nan_cols"]), fmt, meta["style"]))
